@@ -150,8 +150,19 @@ def run_case(cs):
                 continue
             cmd = "create"
             argv = [root] + world.fmt_args(world.gen_formats(rng))
-            for f in rng.sample(files, min(len(files), 2)):
-                argv += ["-sf", os.path.join(root, f)]
+            if rng.random() < 0.2:
+                # a selection that holds nothing to record: an empty folder, or one with ignored files only
+                ed = os.path.join(root, "empty-sel-%d" % step)
+                os.makedirs(ed, exist_ok=True)
+                if rng.random() < 0.5:
+                    with open(os.path.join(ed, ".DS_Store"), "wb") as f:
+                        f.write(b"x")
+                world.set_mtimes(area, rng)
+                argv += ["-sf", ed]
+                oc += "-emptysel"
+            else:
+                for f in rng.sample(files, min(len(files), 2)):
+                    argv += ["-sf", os.path.join(root, f)]
         elif kind == "create-dr":
             if not files:
                 continue
@@ -211,6 +222,9 @@ def run_case(cs):
                 base = os.path.basename(p)
                 par = os.path.basename(os.path.dirname(p))
                 if base == "ascmhl" and after[p][0] == "d":
+                    inside = [q for q in df["added"] if q.startswith(p + "/")]
+                    if not any(q.endswith(".mhl") for q in inside) or not any(q.endswith("/ascmhl_chain.xml") for q in inside):
+                        problems.append(("ascmhl-folder-without-generation", p))
                     continue
                 if par == "ascmhl" and (re.match(r"^\d{4,}_.*_\d{4}-\d\d-\d\d_\d{6}Z\.mhl$", base, re.S) or base == "ascmhl_chain.xml"):
                     continue
